@@ -598,7 +598,8 @@ class StmtMixin(CallMixin):
             j0 = fresh_int("jsk")
             cctx = InvCtx(s, c, H0, env0, **ctx_kwargs)
             body = fn(cctx, c, j0)
-            s.oblig(f"{inv.name}.{stage}.forall[{label}]", "inv", c, body)
+            lab = label if isinstance(label, str) else (label[0] if isinstance(label, tuple) and isinstance(label[0], str) else f"#{i}")
+            s.oblig(f"{inv.name}.{stage}.forall[{lab}]", "inv", c, body)
 
     def assume_inv(s, inv, p, H0, env0, ctx_kwargs):
         ctx = InvCtx(s, p, H0, env0, **ctx_kwargs)
